@@ -9,7 +9,7 @@ USES_FACTS = False
 DRIVER = "shootmodel_map"
 
 MANIFEST = dict(
-    text="Lean 4 theorems over parseCtors (parameter->field recovery composed with the C02 model of `shoot new`), makeCtorMatch with zero-value synthesis and the accessor pseudo-fields: every constructor argument is the zero literal or a justified value of a name-matched readable field, in parameter order (C15_ctor_args); no settable field is written twice, never after the constructor carried it (C15_set_once), and every settable field with an applicable name-matched partner that the constructor did not take is set exactly once (C15_set_exactly_once); every emitted statement applies C05's decision function to its two fields (C15_refines), accessor names match like the exported twin (C15_refines_partial); 5 finding regions with witness theorems. Model tied to the code by rendering src/dest/both with unexported fields, generating real `shoot new -getset` output first, running `shoot map`, executing ToX/FromX and decoding every (unexported) leaf, plus per-leaf write counts from the generated text.",
+    text="Lean 4 theorems over parseCtors (parameter->field recovery composed with the C02 model of `shoot new`), makeCtorMatch with zero-value synthesis and the accessor pseudo-fields: every constructor argument is the zero literal or a justified value of a name-matched readable field, in parameter order (C15_ctor_args); no settable field is written twice, never after the constructor carried it (C15_set_once), and every settable field with an applicable name-matched partner that the constructor did not take is set exactly once (C15_set_exactly_once); every emitted statement applies C05's decision function to its two fields (C15_refines), accessor names match like the exported twin (C15_refines_partial); 3 finding regions with witness theorems (F_skipTagNew, F_ctorNoSub, F_ptrEmbedSetter), 5 `_fixed` theorems on the witnesses of the repaired regions (set-only read, constructor priority, constructor tag, pointer-embed parameters, `any` zero value). Model tied to the code by rendering src/dest/both with unexported fields, generating real `shoot new -getset` output first, running `shoot map`, executing ToX/FromX and decoding every (unexported) leaf, plus per-leaf write counts from the generated text.",
     note="Lean kernel + standard axioms; accessor-mode types are flat or embed ONE level of flat accessor-mode types by value (promoted accessors, nested constructor literal); C15_refines / C15_set_exactly_once need `uniqueClaimable` (at most one claimable partner per field); which of several READING fields wins a written field (first in list order) and the leaf-level equality with the exported twin are asserted by the correspondence.",
     technique="Lean 4 proof (fold invariant of makeCtorMatch, write-set invariant) + differential execution through real accessors",
     design="5/C15")
@@ -24,7 +24,7 @@ BASE = dict(embeds=0.0, shadow=0.0, multi=0.0, unexported=0.0,
 
 def settle_way(rng, sp):
     """a set-only field can only be written: most of the time generate just the direction that writes it
-    (the other direction is finding region F_setOnlyRead)"""
+    (the other direction reads nothing: a setter is never the source)"""
     so = {sd: any(m.get("set") and not m.get("get") for m in sp[sd]["members"] if m["k"] == "f") for sd in ("src", "dest")}
     if rng.random() < 0.75:
         if so["dest"] and not so["src"]:
@@ -75,6 +75,21 @@ def shaped(g, rng):
         mapgen.to_new(rng, sp, "src", getonly=0.0, setonly=0.6, keep_exported=0.0, newmark=0.0)
         mapgen.to_new(rng, sp, "dest", getonly=0.2, setonly=0.0, newmark=0.0)
         out.append(("both-new-src-setonly", sp))
+    # manual hooks in accessor mode (seeded change C15-4): the read hook owns fields of a shoot-new SOURCE - unexported, some of
+    # them get-only (constructor parameter only) - over a plain destination, and the other combinations of sides
+    for sides, kw in ((("src",), dict(getonly=0.5, setonly=0.0, keep_exported=0.0)), (("src",), dict(getonly=0.0, setonly=0.0, keep_exported=0.3)),
+                      (("src",), dict(getonly=1.0, setonly=0.0, keep_exported=0.0, newmark=0.0)),
+                      (("dest",), dict(setonly=0.0)), (("src", "dest"), dict(getonly=0.3, setonly=0.0))):
+        sp = g.pair(**dict(BASE, names=["ident"], kinds=["same", "conv"], n=(4, 6), func_over=0.0, mapper_idle=0.0))
+        for sd in sides:
+            mapgen.to_new(rng, sp, sd, **kw)
+        out.append(("hooks-new-" + "+".join(sides), mapgen.add_hooks(rng, sp, write=0.5)))
+    # the smallest shape: shoot-new Ticket{id; label (get-only); title} over a plain destination, readDest owns `label` and `title`
+    for ptr in (False, True):
+        sp = mapgen.mk_spec([mapgen.F("id", mapgen.INT), mapgen.F("label", mapgen.STR, get=True), mapgen.F("title", mapgen.STR)],
+                            [mapgen.F("ID", mapgen.INT), mapgen.F("Label", mapgen.STR), mapgen.F("Title", mapgen.STR)], src_kind="new", sname="Ticket")
+        sp["manual"] = {"write": None, "read": "read", "readptr": ptr, "recvval": False, "rfields": ["label", "title"]}
+        out.append(("hook-owns-unexported", sp))
     return out
 
 
@@ -90,6 +105,8 @@ def gen_cases(ctx):
             mapgen.to_new(ctx.rng, sp, sd, setonly=0.08, embed=0.2)
         if ctx.rng.random() < 0.2:
             mapgen.add_companion(ctx.rng, sp)
+        elif ctx.rng.random() < 0.2:
+            mapgen.add_hooks(ctx.rng, sp)
         specs.append(("random", settle_way(ctx.rng, sp)))
     cases = []
     for i, (feat, sp) in enumerate(specs):
